@@ -182,7 +182,24 @@ func GenOpt(t *rapid.T, o Opt) Package {
 	// --- media of the main part
 	usedMedia := map[string]bool{}
 	var freeMedia []string // media entry names that header/footer parts may share
-	if !x.no(FMedia) {
+	// library-numbered mode: the media are named image1..imageK like the library's own, the main part owns the
+	// low numbers and other parts (header/footer, notes, comments) or nobody own the highest ones
+	libNum := !x.no(FMedia) && !x.no(FMediaOtherHighest) && x.pct(35, "libnum")
+	nextNum := 1
+	libExt := func() string { return rapid.SampledFrom([]string{"png", "jpeg", "gif", "png"}).Draw(t, "libext") }
+	if libNum {
+		nm := rapid.SampledFrom([]int{0, 1, 1, 2}).Draw(t, "nlibmedia")
+		for i := 0; i < nm; i++ {
+			name := fmt.Sprintf("image%d.%s", nextNum, libExt())
+			nextNum++
+			usedMedia[name] = true
+			pt := x.mediaPart("word/media/"+name, addDefault)
+			p.Parts = append(p.Parts, pt)
+			freeMedia = append(freeMedia, pt.Name)
+			rels = append(rels, pendingRel{Rel{Type: RelImage, Target: abs("media/" + name)}, "img"})
+		}
+	}
+	if !x.no(FMedia) && !libNum {
 		nm := rapid.SampledFrom([]int{0, 0, 1, 1, 2, 3}).Draw(t, "nmedia")
 		for i := 0; i < nm; i++ {
 			name := rapid.SampledFrom(mediaNames).Draw(t, "medianame")
@@ -242,6 +259,34 @@ func GenOpt(t *rapid.T, o Opt) Package {
 				use = "ftr"
 			}
 			rels = append(rels, pendingRel{Rel{Type: relT, Target: abs(name)}, use})
+		}
+	}
+
+	// --- library-numbered mode: the highest image numbers belong to other parts, or to nobody
+	if libNum {
+		n := rapid.IntRange(1, 2).Draw(t, "nothermedia")
+		for i := 0; i < n; i++ {
+			if rapid.IntRange(0, 3).Draw(t, "numgap") == 0 {
+				nextNum++ // a gap in the numbering
+			}
+			var owners []int
+			for j, pt := range p.Parts {
+				switch pt.Kind {
+				case "header", "footer", "footnotes", "endnotes", "comments":
+					if len(pt.Rels) == 0 {
+						owners = append(owners, j)
+					}
+				}
+			}
+			owners = append(owners, -1) // -1: in the package, related from nowhere
+			o := rapid.SampledFrom(owners).Draw(t, "mediaowner")
+			name := fmt.Sprintf("image%d.%s", nextNum, libExt())
+			nextNum++
+			mp := x.mediaPart("word/media/"+name, addDefault)
+			if o >= 0 {
+				p.Parts[o].Rels = []Rel{{ID: rapid.SampledFrom([]string{"rId1", "rId5", "img1"}).Draw(t, "ownerrid"), Type: RelImage, Target: "media/" + name}}
+			}
+			p.Parts = append(p.Parts, mp)
 		}
 	}
 
